@@ -660,6 +660,50 @@ func checkVectorDB(r *rand.Rand, chunks []*rag.Chunk, c *fw.Ctx) *fail {
 			return failf("weaviate-vector", "ExportForWeaviate: vector %d differs", i)
 		}
 	}
+	// an embedding with a component JSON cannot express (NaN, +Inf, -Inf — a failed
+	// embedding call) on one chunk: the export reports an error, or it still
+	// delivers one well-formed record per chunk
+	if len(emb) > 0 && len(chunks) > 0 {
+		bad := make([][]float64, len(emb))
+		for i := range emb {
+			bad[i] = append([]float64{}, emb[i]...)
+		}
+		at := r.Intn(len(bad))
+		if len(bad) > 1 && r.Intn(3) > 0 {
+			at = r.Intn(len(bad) - 1) // not the last one
+		}
+		if len(bad[at]) == 0 {
+			bad[at] = []float64{0}
+		}
+		bad[at][r.Intn(len(bad[at]))] = []float64{math.NaN(), math.Inf(1), math.Inf(-1)}[r.Intn(3)]
+		c.Count("non_finite_embedding_exports", 3)
+		buf.Reset()
+		if err := ee.ExportForWeaviate(chunks, bad, class, &buf); err == nil {
+			lines, f := parseJSONL(buf.String())
+			if f != nil {
+				return f
+			}
+			if len(lines) != len(chunks) {
+				return failf("weaviate-count/non-finite", "ExportForWeaviate returned nil with a non-finite component in embedding %d of %d: %d objects for %d chunks", at, len(bad), len(lines), len(chunks))
+			}
+		}
+		buf.Reset()
+		if err := ee.ExportForPinecone(chunks, bad, &buf); err == nil {
+			if objs, err := decodeObjects(buf.String()); err != nil || len(objs) != 1 {
+				return failf("pinecone-syntax/non-finite", "ExportForPinecone returned nil with a non-finite embedding component, output rejected by encoding/json: %v", err)
+			}
+		}
+		buf.Reset()
+		if err := ee.ExportForChroma(chunks, bad, &buf); err == nil {
+			objs, err := decodeObjects(buf.String())
+			if err != nil || len(objs) != 1 {
+				return failf("chroma-syntax/non-finite", "ExportForChroma returned nil with a non-finite embedding component, output rejected by encoding/json: %v", err)
+			}
+			if ids, _ := objs[0]["ids"].([]any); len(ids) != len(chunks) {
+				return failf("chroma-count/non-finite", "ExportForChroma returned nil with a non-finite embedding component: %d ids for %d chunks", len(ids), len(chunks))
+			}
+		}
+	}
 	c.Count("vectordb_records_compared", int64(4*len(chunks)))
 	return nil
 }
